@@ -129,3 +129,19 @@ Theorem C19_no_cross_conversion_partial : forall T U client g,
   convertible_from_client (real_cfg client g) (GPointer (resolve_named U)) (GPointer (resolve_named T)) = false.
 Proof. exact cross_conversion_lifted. Qed.
 Print Assumptions C19_no_cross_conversion_partial.
+
+(* Second-round clauses (spec/ApiSpec.v (v)).  A parameter that the reviewed API marks Safe - the value
+   is trusted already - has a type that mentions a tracked type or is embed.FS, which only the
+   compiler can fill: the constructor cannot be fed through an interface clients implement. *)
+Theorem C19_safe_parameters_keep_trusted_types : forall f r x,
+  In f gen_funcs -> lookup_reviewed f = Some r -> In x (f_params f) -> param_role r (fst x) = Some Safe ->
+  safe_param_type_ok (snd x) = true.
+Proof. exact safe_params_keep_trusted_types. Qed.
+Print Assumptions C19_safe_parameters_keep_trusted_types.
+
+(* The safe types are immutable: no exported method of a safe type has a pointer receiver (nothing
+   like UnmarshalText / Scan / Set can overwrite the contents of a value). *)
+Theorem C19_safe_types_have_no_mutating_methods : forall f,
+  In f gen_funcs -> mem_name2 (f_pkg f, f_recv f) safe_types = true -> f_recv_ptr f = false.
+Proof. exact safe_types_have_no_pointer_methods. Qed.
+Print Assumptions C19_safe_types_have_no_mutating_methods.
